@@ -18,6 +18,11 @@
 (*   mdel   (m)    delete manifest m by digest                             *)
 (*   mdelr  (m)    the same with the client's referrer check switched on   *)
 (*   head/get (ref), list : observations, no effect                        *)
+(*   gc            housekeeping of the back end (a layout's garbage        *)
+(*                 collection, RegClient.Close): the tag map is untouched  *)
+(*                 and every manifest a tag points at stays stored; which  *)
+(*                 of the other stored manifests go is the collector's     *)
+(*                 business, not the statement's (MGcOK)                   *)
 (***************************************************************************)
 EXTENDS Naturals, FiniteSets, Sequences
 CONSTANTS Tags, Mans
@@ -44,6 +49,10 @@ MMans(ms, k, m) ==
   CASE k \in {"push", "pushd"} -> ms \cup {m}
     [] k \in {"mdel", "mdelr"} -> ms \ {m}
     [] OTHER -> ms
+
+\* housekeeping: the manifests some tag points at are protected, the others may be swept
+MProt(tg) == {tg[t] : t \in Tags} \ {NONE}
+MGcOK(tg, ms, kept) == (MProt(tg) \cap ms) \subseteq kept /\ kept \subseteq ms
 
 MListed(tg) == {t \in Tags : tg[t] # NONE}
 \* answer to head / get of a reference (a tag or a digest)
